@@ -1,0 +1,68 @@
+//! Verification hooks. Only compiled with `--cfg mamba_verif`; inert otherwise.
+//!
+//! * `lex`: the (private) lexer, as plain data.
+//! * `trace`/`emit`/`count`: a thread-local event sink so a harness can record
+//!   which pipeline stages ran, in which order, and how many steps they took.
+use std::cell::RefCell;
+use std::collections::BTreeMap;
+
+pub use crate::parse::verif_lex::{lex, LexTok};
+
+#[derive(Debug, Clone, PartialEq, Eq)]
+pub enum Event {
+    /// A pipeline phase starts on `files` inputs.
+    StageBegin { stage: &'static str, files: usize },
+    /// A pipeline phase ended with `n_ok` successes and `n_err` failed inputs.
+    /// (A phase that fails by early return, like context building, has no end event.)
+    StageEnd { stage: &'static str, n_ok: usize, n_err: usize },
+    Read { path: String },
+    Write { path: String },
+}
+
+#[derive(Default)]
+struct Sink {
+    on: bool,
+    events: Vec<Event>,
+    counters: BTreeMap<&'static str, u64>,
+}
+
+thread_local! {
+    static SINK: RefCell<Sink> = RefCell::new(Sink::default());
+}
+
+pub fn emit(event: Event) {
+    SINK.with(|s| {
+        let mut s = s.borrow_mut();
+        if s.on {
+            s.events.push(event);
+        }
+    });
+}
+
+pub fn count(counter: &'static str, n: u64) {
+    SINK.with(|s| {
+        let mut s = s.borrow_mut();
+        if s.on {
+            *s.counters.entry(counter).or_insert(0) += n;
+        }
+    });
+}
+
+/// Start recording on this thread (clears earlier records).
+pub fn start() {
+    SINK.with(|s| {
+        let mut s = s.borrow_mut();
+        s.on = true;
+        s.events.clear();
+        s.counters.clear();
+    });
+}
+
+/// Stop recording and return what was recorded (also usable after a caught panic).
+pub fn finish() -> (Vec<Event>, BTreeMap<&'static str, u64>) {
+    SINK.with(|s| {
+        let mut s = s.borrow_mut();
+        s.on = false;
+        (std::mem::take(&mut s.events), std::mem::take(&mut s.counters))
+    })
+}
